@@ -10,9 +10,9 @@
    and the threads of a wallet system, each an action tree whose accesses are ONE read or write of
    ONE field at a time (so every interleaving between two accesses of a method is a schedule):
      [add_code l]      AddListener:  Lock; read listeners; write listeners; Unlock
-     [get_code]        GetAccounts:  Lock; read addressList (len); read addressList (copy); Unlock
+     [get_code]        GetAccounts:  Lock; read addressList; Unlock
      [discover ls]     notifyNewFiles(ls): Lock; per file { matchFilename; read map; [write map;
-                       [read list; write list]] }; read listeners (len); read listeners (copy); go;
+                       [read list; write list]] }; read listeners (the snapshot); go;
                        Unlock       (the branches depend on the values READ — data-dependent tree)
      [refresh_code]    Refresh:  ReadDir; if non-empty, notifyNewFiles
      [event_code f]    fs event loop, one event:  Stat f; notifyNewFiles(f)
@@ -99,9 +99,8 @@ Definition add_code (l : lid) : wcode :=
          CUnlock (Done [])))).
 
 Definition get_code : wcode :=
-  CLock (CAcc fA false (fun p => p) (fun _ =>
-         CAcc fA false (fun p => p) (fun p =>
-         CUnlock (Done (pl p))))).
+  CLock (CAcc fA false (fun p => p) (fun p =>
+         CUnlock (Done (pl p)))).
 
 Section Codes.
   Variable addr_of : fid -> option addr.
@@ -110,9 +109,8 @@ Section Codes.
   Fixpoint loop (listing : list fid) (new : list addr) : wcode :=
     match listing with
     | [] =>
-        CAcc fL false (fun p => p) (fun _ =>          (* len(w.listeners) *)
         CAcc fL false (fun p => p) (fun p =>          (* copy(listeners, w.listeners) *)
-        CIn (pls p, new) (CUnlock (Done []))))
+        CIn (pls p, new) (CUnlock (Done [])))
     | f :: rest =>
         CTau (                                         (* matchFilename *)
         match addr_of f with
@@ -406,6 +404,124 @@ Section Codes.
       + rewrite run_app, Hr1. exact Hr2.
   Qed.
 
+  (* ---- per-thread observations: what a finished call returned ---- *)
+  (* the observation the running critical section will finish with *)
+  Fixpoint final_obs (c : wcode) (p : prot) : option (list addr) :=
+    match c with
+    | CAcc _ _ upd k => final_obs (k p) (upd p)
+    | CIn _ k => final_obs k p
+    | CTau k => final_obs k p
+    | CUnlock (Done o) => Some o
+    | _ => None
+    end.
+
+  Lemma loop_obs : forall listing new p, final_obs (loop listing new) p = Some [].
+  Proof.
+    induction listing as [|f rest IH]; intros new p; cbn [loop final_obs]; [reflexivity|].
+    destruct (addr_of f) as [a|]; [|apply IH]. cbn [final_obs].
+    destruct (lookup a (pm p)) as [f'|].
+    - destruct (N.eqb f' f); [apply IH|]. cbn [final_obs]. apply IH.
+    - cbn [final_obs]. apply IH.
+  Qed.
+
+  Definition HObs (s : wcfg) : Prop :=
+    forall h c o, c_holder _ _ _ _ _ _ s = Some h -> nth_error (c_thr _ _ _ _ _ _ s) h = Some c ->
+      final_obs c (c_p _ _ _ _ _ _ s) = Some o -> o = [] \/ o = pl (fst (phi s)).
+
+  Lemma ends_not_done : forall c o, ends_done c -> c <> Done o.
+  Proof. intros c o H E. subst c. exact H. Qed.
+
+  Lemma serial_step_obs : forall s t s',
+    GInv s -> HObs s -> (forall h, c_holder _ _ _ _ _ _ s = Some h -> h = t) -> wstep s t s' ->
+    HObs s' /\
+    forall u o, nth_error (c_thr _ _ _ _ _ _ s') u = Some (Done o) ->
+      nth_error (c_thr _ _ _ _ _ _ s) u = Some (Done o) \/ o = [] \/ o = pl (fst (phi s')).
+  Proof.
+    intros [p e ho thr] t s' [Hh Ht] Hobs Hser (c & h' & p' & e' & c' & Hn & Hst & ->).
+    unfold HObs in *. cbn [c_thr c_holder c_p c_e] in *.
+    assert (Hother : forall u x, u <> t -> nth_error (set_nth t c' thr) u = Some x -> nth_error thr u = Some x).
+    { intros u x Hne Hu. rewrite nth_set_other in Hu by congruence. exact Hu. }
+    destruct ho as [h|].
+    - pose proof (Hser h eq_refl) as ->.
+      destruct (Hh t eq_refl) as [c0 [Hn0 Hend]]. rewrite Hn in Hn0. injection Hn0 as <-.
+      specialize (Hobs t c).
+      inversion Hst; subst; cbn [ends_done] in Hend; try contradiction.
+      + (* Unlock *)
+        destruct c' as [o| | | | | | ]; try contradiction.
+        split; [intros h c1 o1 Hc; discriminate|].
+        intros u o1 Hu. destruct (Nat.eq_dec u t) as [->|Hne].
+        * rewrite (nth_set_same _ _ _ _ Hn) in Hu. injection Hu as <-. right.
+          destruct (Hobs o eq_refl Hn eq_refl) as [->|Ho]; [left; reflexivity|right].
+          rewrite Ho. unfold phi. cbn [c_holder c_thr c_p c_e]. rewrite Hn. reflexivity.
+        * left. eapply Hother; eassumption.
+      + (* Acc *)
+        split.
+        * intros h c1 o1 Hc Hn1 Hf. injection Hc as <-. rewrite (nth_set_same _ _ _ _ Hn) in Hn1. injection Hn1 as <-.
+          destruct (Hobs o1 eq_refl Hn Hf) as [->|Ho]; [left; reflexivity|right].
+          rewrite Ho. unfold phi. cbn [c_holder c_thr c_p c_e]. rewrite Hn, (nth_set_same _ _ _ _ Hn). reflexivity.
+        * intros u o1 Hu. destruct (Nat.eq_dec u t) as [->|Hne].
+          -- rewrite (nth_set_same _ _ _ _ Hn) in Hu. injection Hu as Hu. exfalso. exact (ends_not_done _ _ (Hend p) Hu).
+          -- left. eapply Hother; eassumption.
+      + (* In *)
+        split.
+        * intros h c1 o1 Hc Hn1 Hf. injection Hc as <-. rewrite (nth_set_same _ _ _ _ Hn) in Hn1. injection Hn1 as <-.
+          destruct (Hobs o1 eq_refl Hn Hf) as [->|Ho]; [left; reflexivity|right].
+          rewrite Ho. unfold phi. cbn [c_holder c_thr c_p c_e]. rewrite Hn, (nth_set_same _ _ _ _ Hn). reflexivity.
+        * intros u o1 Hu. destruct (Nat.eq_dec u t) as [->|Hne].
+          -- rewrite (nth_set_same _ _ _ _ Hn) in Hu. injection Hu as Hu. exfalso. exact (ends_not_done _ _ Hend Hu).
+          -- left. eapply Hother; eassumption.
+      + (* Tau *)
+        split.
+        * intros h c1 o1 Hc Hn1 Hf. injection Hc as <-. rewrite (nth_set_same _ _ _ _ Hn) in Hn1. injection Hn1 as <-.
+          destruct (Hobs o1 eq_refl Hn Hf) as [->|Ho]; [left; reflexivity|right].
+          rewrite Ho. unfold phi. cbn [c_holder c_thr c_p c_e]. rewrite Hn, (nth_set_same _ _ _ _ Hn). reflexivity.
+        * intros u o1 Hu. destruct (Nat.eq_dec u t) as [->|Hne].
+          -- rewrite (nth_set_same _ _ _ _ Hn) in Hu. injection Hu as Hu. exfalso. exact (ends_not_done _ _ Hend Hu).
+          -- left. eapply Hother; eassumption.
+    - clear Hh Hser Hobs.
+      assert (Htc : tcode (ef e) c) by (apply (Ht t c Hn); discriminate).
+      destruct Htc as [ |f|listing Hnil Hincl|l| |f|n|o].
+      + unfold refresh_code in Hst. inversion Hst; subst.
+        split; [intros h c1 o1 Hc; discriminate|].
+        intros u o1 Hu. destruct (Nat.eq_dec u t) as [->|Hne]; [|left; eapply Hother; eassumption].
+        rewrite (nth_set_same _ _ _ _ Hn) in Hu. injection Hu as Hu. right. left.
+        destruct (fst x); [injection Hu as <-; reflexivity|discriminate].
+      + unfold event_code in Hst. inversion Hst; subst.
+        split; [intros h c1 o1 Hc; discriminate|].
+        intros u o1 Hu. destruct (Nat.eq_dec u t) as [->|Hne]; [|left; eapply Hother; eassumption].
+        rewrite (nth_set_same _ _ _ _ Hn) in Hu. discriminate.
+      + unfold discover in Hst. inversion Hst; subst.
+        split.
+        * intros h c1 o1 Hc Hn1 Hf. injection Hc as <-. rewrite (nth_set_same _ _ _ _ Hn) in Hn1. injection Hn1 as <-.
+          rewrite loop_obs in Hf. injection Hf as <-. left; reflexivity.
+        * intros u o1 Hu. destruct (Nat.eq_dec u t) as [->|Hne]; [|left; eapply Hother; eassumption].
+          rewrite (nth_set_same _ _ _ _ Hn) in Hu. injection Hu as Hu. exfalso.
+          exact (ends_not_done _ _ (loop_ends listing []) Hu).
+      + unfold add_code in Hst. inversion Hst; subst.
+        split.
+        * intros h c1 o1 Hc Hn1 Hf. injection Hc as <-. rewrite (nth_set_same _ _ _ _ Hn) in Hn1. injection Hn1 as <-.
+          cbn [final_obs] in Hf. injection Hf as <-. left; reflexivity.
+        * intros u o1 Hu. destruct (Nat.eq_dec u t) as [->|Hne]; [|left; eapply Hother; eassumption].
+          rewrite (nth_set_same _ _ _ _ Hn) in Hu. discriminate.
+      + unfold get_code in Hst. inversion Hst; subst.
+        split.
+        * intros h c1 o1 Hc Hn1 Hf. injection Hc as <-. rewrite (nth_set_same _ _ _ _ Hn) in Hn1. injection Hn1 as <-.
+          cbn [final_obs] in Hf. injection Hf as <-. right.
+          unfold phi. cbn [c_holder c_thr c_p c_e]. rewrite (nth_set_same _ _ _ _ Hn). reflexivity.
+        * intros u o1 Hu. destruct (Nat.eq_dec u t) as [->|Hne]; [|left; eapply Hother; eassumption].
+          rewrite (nth_set_same _ _ _ _ Hn) in Hu. discriminate.
+      + unfold creator in Hst. inversion Hst; subst.
+        split; [intros h c1 o1 Hc; discriminate|].
+        intros u o1 Hu. destruct (Nat.eq_dec u t) as [->|Hne]; [|left; eapply Hother; eassumption].
+        rewrite (nth_set_same _ _ _ _ Hn) in Hu. injection Hu as <-. right. left. reflexivity.
+      + destruct n as [|n]; cbn [sender] in Hst; inversion Hst; subst.
+        split; [intros h c1 o1 Hc; discriminate|].
+        intros u o1 Hu. destruct (Nat.eq_dec u t) as [->|Hne]; [|left; eapply Hother; eassumption].
+        rewrite (nth_set_same _ _ _ _ Hn) in Hu. injection Hu as Hu. right. left.
+        destruct n; cbn [sender] in Hu; [injection Hu as <-; reflexivity|discriminate].
+      + inversion Hst.
+  Qed.
+
   (* ---- validity of AddListener from distinctness of what ends up registered ---- *)
   Lemma listeners_apply : forall s o, exists r, listeners (apply addr_of s o) = listeners s ++ r.
   Proof.
@@ -500,5 +616,51 @@ Section Codes.
     destruct (serial_refines ls thr sch' sn Hthr Hs Hfin) as [ops [Hv Hr]].
     exists ops. split; [exact Hr|]. split; [exact Hv|].
     intros Hnd. apply vseq'_valid; [exact Hv|]. rewrite Hr. exact Hnd.
+  Qed.
+  (* ---- observations along a serial execution ---- *)
+  Lemma serial_refines_obs : forall s sch sn, wsexec s sch sn -> GInv s -> HObs s ->
+    exists ops, vseq' (abs (phi s)) ops /\ run addr_of (abs (phi s)) ops = abs (phi sn) /\
+      forall u o, nth_error (c_thr _ _ _ _ _ _ sn) u = Some (Done o) ->
+        nth_error (c_thr _ _ _ _ _ _ s) u = Some (Done o) \/ o = [] \/
+        exists ops1 ops2, ops = ops1 ++ ops2 /\ o = addrList (run addr_of (abs (phi s)) ops1).
+  Proof.
+    induction 1 as [s|s t s1 sch sn Hc Hst Hse IH]; intros Hinv Hobs.
+    - exists []. split; [exact I|]. split; [reflexivity|]. intros u o Hu. left. exact Hu.
+    - destruct (serial_step s t s1 Hinv Hc Hst) as [Hinv1 [ops1 [Hv1 Hr1]]].
+      destruct (serial_step_obs s t s1 Hinv Hobs Hc Hst) as [Hobs1 Hd1].
+      destruct (IH Hinv1 Hobs1) as [ops2 [Hv2 [Hr2 Hd2]]].
+      exists (ops1 ++ ops2). split; [apply vseq'_app; [exact Hv1|rewrite Hr1; exact Hv2]|].
+      split; [rewrite run_app, Hr1; exact Hr2|].
+      intros u o Hu. destruct (Hd2 u o Hu) as [Hu1|[->|(a & b & -> & Ho)]].
+      + destruct (Hd1 u o Hu1) as [Hu0|[->|Ho]]; [left; exact Hu0|right; left; reflexivity|].
+        right. right. exists ops1, ops2. split; [reflexivity|]. rewrite Hr1, Ho. reflexivity.
+      + right. left. reflexivity.
+      + right. right. exists (ops1 ++ a), b. split; [rewrite app_assoc; reflexivity|].
+        rewrite run_app, Hr1. exact Ho.
+  Qed.
+
+  (* [fine_grained_refines_notify] with what every finished call observed: the list a GetAccounts
+     call returned is the account list of the model after a PREFIX of the same run *)
+  Theorem fine_grained_refines_obs : forall ls thr sch sn,
+    wallet_threads thr ->
+    (forall c, In c thr -> wwl false c) ->
+    wexec (wallet_init ls thr) sch sn -> c_holder _ _ _ _ _ _ sn = None ->
+    exists ops,
+      run addr_of (init ls) ops = abs (c_p _ _ _ _ _ _ sn, c_e _ _ _ _ _ _ sn) /\
+      (NoDup (pls (c_p _ _ _ _ _ _ sn)) -> valid_seq addr_of (init ls) ops) /\
+      forall u o, nth_error (c_thr _ _ _ _ _ _ sn) u = Some (Done o) ->
+        nth_error thr u = Some (Done o) \/ o = [] \/
+        exists ops1 ops2, ops = ops1 ++ ops2 /\ o = addrList (run addr_of (init ls) ops1).
+  Proof.
+    intros ls thr sch sn Hthr Hdisc He Hfin.
+    assert (Hci : Reduction.CInv prot env choice (list addr) outa ina (wallet_init ls thr)).
+    { intros t c Hn. unfold holds. cbn [wallet_init c_holder c_thr] in *. apply Hdisc. eapply nth_error_In; eauto. }
+    destruct (wallet_reduction _ _ _ Hci He Hfin) as [sch' [_ Hs]].
+    assert (Hob : HObs (wallet_init ls thr)) by (intros h c o Hc; discriminate).
+    destruct (serial_refines_obs _ _ _ Hs (wallet_init_ginv ls thr Hthr) Hob) as [ops [Hv [Hr Hd]]].
+    unfold phi in Hv, Hr, Hd. rewrite Hfin in Hr. cbn [wallet_init c_holder c_p c_e c_thr] in *.
+    assert (Hr' : run addr_of (init ls) ops = abs (c_p _ _ _ _ _ _ sn, c_e _ _ _ _ _ _ sn)) by exact Hr.
+    exists ops. split; [exact Hr'|]. split; [|exact Hd].
+    intros Hnd. apply vseq'_valid; [exact Hv|]. rewrite Hr'. exact Hnd.
   Qed.
 End Codes.
